@@ -13,12 +13,13 @@ From DesVerif Require Import Life.Model Life.Base Life.Step Life.Trace Life.Fram
 Import ListNotations.
 Open Scope N_scope.
 
-(* handler_runs_only_if_active: scanning the records of any dispatched event never finds a call
-   record (message handler, task step, timer completion, start-up stage of a restart) with
-   is_active = false, except after a panic of the module's own callback in the same event
-   ([act_st], coq/Life/Inv.v; Harness::catch has deactivated the module by then). *)
-Theorem C09_handler_runs_only_if_active : forall sc e ev,
-  In e (trace sc) -> e_kind e = KLoop ev -> act_st false (e_items e) <> None.
+(* handler_runs_only_if_active: scanning any record of the start-up sweep or of a dispatched event
+   never finds a call record (start-up stage, message handler, task step, timer completion) with
+   is_active = false, except after a panic of the module's own callback in the same record
+   ([act_st], coq/Life/Inv.v; Harness::catch has deactivated the module by then).  Only the tear-down
+   sweep (at_sim_end, [is_end]) calls every module irrespective of is_active. *)
+Theorem C09_handler_runs_only_if_active : forall sc e,
+  In e (trace sc) -> is_end e = false -> act_st false (e_items e) <> None.
 Proof. exact handler_runs_only_if_active. Qed.
 Print Assumptions C09_handler_runs_only_if_active.
 
@@ -30,13 +31,13 @@ Print Assumptions C09_calls_carry_active.
 
 (* inert_while_down: [down_after m pre]: in [pre] module m was reset (its shutdown request was
    consumed) and not (re)started since.  The next record, unless it is m's restart event,
-   holds no message handler, task step or timer completion of m; if it is a dispatched event it
-   holds no record of m at all (no send, no log, no request either): messages addressed to m
-   and its wake-ups are dropped. *)
+   holds no message handler, task step or timer completion of m; unless it is a tear-down record it
+   holds no record of m at all (no at_sim_start, no send, no log, no request either): the start-up
+   sweep skips m (since 1526470), messages addressed to m and its wake-ups are dropped. *)
 Theorem C09_inert_while_down : forall sc m pre e post,
   trace sc = pre ++ e :: post -> down_after m pre = true -> starts m e = false ->
   no_run m (e_items e) /\
-  (forall ev, e_kind e = KLoop ev -> forallb (fun i => negb (of_mod m i)) (e_items e) = true).
+  (is_end e = false -> forallb (fun i => negb (of_mod m i)) (e_items e) = true).
 Proof. exact inert_while_down. Qed.
 Print Assumptions C09_inert_while_down.
 
